@@ -48,6 +48,12 @@ def h_gc(s0: bool, s1: bool, s2: bool, sd0: bool, sd1: bool, u0: bool, u1: bool,
     try:
         with NoTracing():
             trees = [_mktree(l) for l in LISTING]
+            # two identical listings are one object: stored / used if either copy is
+            for j in range(ND):
+                for k in range(ND):
+                    if trees[j].oid == trees[k].oid:
+                        dir_in_store[j] = dir_in_store[j] or dir_in_store[k]
+                        used_d[j] = used_d[j] or used_d[k]
             cfg = {"read_only": True} if ro else {}
             odb = {"local": env.local_odb, "base": env.base_odb, "remote": env.remote_odb}[CLS]("store", **cfg)
             prot = 0o444 if CLS == "local" else None
